@@ -27,7 +27,7 @@ Lemma premises_hold :
                                    (spec_hist (abs start_board) knights8)) = true /\
   threefold (run_moves zob_real (reset_hash zob_real start_board) knights8) = 3%Z /\
   rep_count (map pos_key (spec_hist (abs start_board) knights8)) = 3%Z /\
-  cur_hash (reset_hash zob_real start_board) = 8926406864108350934%N.
+  cur_hash (reset_hash zob_real start_board) = calc_hash zob_real start_board.
 Proof. vm_compute. repeat split; reflexivity. Qed.
 
 (* ------------------------------------------------------------------------------------------ *)
